@@ -145,6 +145,7 @@ pub fn run_worker(
         }
     }
     end.aborted = world.aborted.clone();
+    if world.post_exit_drain_ns > 0 && end.panicked.is_none() { let ns = world.post_exit_drain_ns; world.drain_after_exit(ns); }
     world.stats.virtual_ns = world.now - 1000 * crate::world::SEC;
     World::uninstall();
     crate::sys::close(scm_main_fd);
